@@ -88,6 +88,21 @@ def poison_hook(kind):
             ch.basic_publish("", q + "-i1", "{not json", props("poison-9"))
         elif kind == "reply-queue":
             ch.basic_publish("", "asl_workflow_reply_to-i1", b"\xff\xfe", fakepika.BasicProperties(correlation_id="nobody"))
+        elif kind == "noid-poison":
+            # events from a client that sets no AMQP message id: poison ones ...
+            for body in ([1, 2], {"data": {}, "context": 5}):
+                ch.basic_publish("", q, json.dumps(body), props(None))
+        elif kind == "noid-starts":
+            # ... and two perfectly good start events (a machine that waits, a machine that calls a task)
+            for nm, asl in (("noidw", {"StartAt": "W", "States": {"W": {"Type": "Wait", "Seconds": 1, "End": True}}}),
+                            ("noidt", {"StartAt": "T", "States": {"T": {"Type": "Task", "Resource": "arn:aws:rpcmessage:local::function:echo", "End": True}}})):
+                arn = w.create_machine(nm, asl)
+                for j in range(2):
+                    w.start_event(arn, "%s%d" % (nm, j), {"j": j}, message_id="to-be-removed-%s%d" % (nm, j))
+            for qq in w.broker.queues.values():
+                for m in qq.messages:
+                    if str(m.props.message_id).startswith("to-be-removed-"):
+                        m.props.message_id = None
         elif kind in ("reply-twice", "reply-thrice"):
             # replies nobody waits for (yet), several with the same correlation id (a worker that answered, died before acknowledging its request and
             # answered again): each of them is a delivery that has to be acknowledged in the end
@@ -99,7 +114,7 @@ def poison_hook(kind):
 def run(ctx):
     n_cases = ctx.pick(200, 3000)
     n_random = ctx.pick(3, 12)
-    poisons = ["nonjson", "nocontext", "unknown-machine", "array", "nostatemachine", "nonutf8", "badbytes", "empty", "instance-queue", "reply-queue", "reply-twice", "reply-thrice"]
+    poisons = ["nonjson", "nocontext", "unknown-machine", "array", "nostatemachine", "nonutf8", "badbytes", "empty", "instance-queue", "reply-queue", "reply-twice", "reply-thrice", "noid-poison", "noid-starts"]
     for k in range(n_cases):
         if not ctx.mine(k):
             continue
